@@ -227,6 +227,17 @@ func checkC05(c *Ctx) {
 		o.Gen.InvalidPct = 30 + c.Rng("c05pct", i).Intn(41)
 		o.Gen.MaxTx = 12
 		o.Blocks = c.N(30, 45)
+		if i%3 == 0 {
+			// armed stake limiter and a transaction rejected by it in the middle of related changes
+			o.Gen.NVal, o.Gen.NReserved = 3, 6
+			o.Params.MaxValidatorCnt = 6
+			o.Params.MaxUpdatableStakeRatio, o.Params.MaxIndividualStakeRatio = 33, 100000
+			o.Params.MinSelfStakeRatio = 0
+			withScenarios(o, scenLimiterRejection(int64(3+i%5)), scenForcedRelease(int64(9+i%4)))
+		} else if i%3 == 1 {
+			o.Gen.NReserved = 6
+			withScenarios(o, scenExitRestake(int64(3+i%5)), scenTwinProposals(int64(4+i%6), false))
+		}
 		hr := runHistory(c, i, c.Rng("hist-C05", i), o)
 		hr.Report("C05")
 		if len(hr.Results) == 0 {
@@ -247,6 +258,17 @@ func checkC05(c *Ctx) {
 			return
 		}
 		defer ra.Close()
+		// third replica: per block exactly one (PRNG-chosen) failed transaction is removed; every other
+		// transaction - including the other failed ones - must behave exactly as next to it
+		dirC := c.Dir(fmt.Sprintf("c05-%d-one", i))
+		rc, _, err := openReplica(c, dirC, hr.G.G, SpawnOpt{}, true)
+		if err != nil {
+			c.Err(i, "twin open", err)
+			return
+		}
+		defer rc.Close()
+		var hashC []byte
+		orng := c.Rng("c05-one", i)
 		var contractAddrs [][]byte
 		if hr.M.Ref != nil {
 			for _, k := range sortedKeys(hr.M.Ref.Contracts) {
@@ -289,10 +311,61 @@ func checkC05(c *Ctx) {
 					return
 				}
 			}
+			// single-erasure twin
+			var failedIdx []int
+			for ti := range b.Txs {
+				if full.Txs[ti].Code != 0 {
+					failedIdx = append(failedIdx, ti)
+				}
+			}
+			ob := *b
+			drop := -1
+			if len(failedIdx) > 0 {
+				drop = failedIdx[orng.Intn(len(failedIdx))]
+				ob.Txs = nil
+				for ti, tx := range b.Txs {
+					if ti != drop {
+						ob.Txs = append(ob.Txs, tx)
+					}
+				}
+			}
+			resC, err := execBlock(rc, hr.G.G.ChainID, &ob, hashC)
+			if err != nil {
+				c.Err(i, "replica A-one", err)
+				return
+			}
+			hashC = resC.Commit.Data
+			k := 0
+			for ti := range b.Txs {
+				if ti == drop {
+					continue
+				}
+				x, y := full.Txs[ti], resC.Txs[k]
+				k++
+				if x.Code != y.Code || hx(x.Data) != hx(y.Data) || x.GasUsed != y.GasUsed {
+					c.Violation(i, "failed-tx-influences-later-tx", fmt.Sprintf("history %s block %d: tx %d (%s) returns code=%d gasUsed=%d next to the failed tx %d (%s, code %d) but code=%d gasUsed=%d when that failed transaction is left out",
+						o.Name, b.Height, ti, hr.Txs[bi][ti].Label, x.Code, x.GasUsed, drop, hr.Txs[bi][drop].Label, full.Txs[drop].Code, y.Code, y.GasUsed), hr.replayDoc())
+					return
+				}
+			}
+			if drop >= 0 {
+				c.Count("single-erasures", 1)
+			}
 			da, err := ra.DumpAt(b.Height, contractAddrs)
 			if err != nil {
 				c.Err(i, "dump A", err)
 				return
+			}
+			if drop >= 0 {
+				dc, err := rc.DumpAt(b.Height, contractAddrs)
+				if err != nil {
+					c.Err(i, "dump A-one", err)
+					return
+				}
+				if sa, sc := semanticDumpStr(fromDump(da))+contractsStr(da), semanticDumpStr(fromDump(dc))+contractsStr(dc); sa != sc {
+					c.Violation(i, "failed-tx-left-a-trace", fmt.Sprintf("history %s block %d: state differs from the run without the failed transaction %d (%s)\n%s", o.Name, b.Height, drop, hr.Txs[bi][drop].Label, firstDiffLine(sa, sc)), hr.replayDoc())
+					return
+				}
 			}
 			db, err := r.DumpAt(b.Height, contractAddrs)
 			if err != nil {
